@@ -587,7 +587,7 @@ func (db *DB) all(of Object) (out []Object, err error) {
 	var o Object
 	var it *iterator
 
-	if it, err = db.Iterator(of); err != nil {
+	if it, err = db.iterator(of); err != nil {
 		return
 	}
 
@@ -665,7 +665,7 @@ func (db *DB) searchAll(o Object, field, operator string, value interface{}, con
 			uuids = append(uuids, s.ObjectIndex.ObjectIds[c.ObjectId])
 		}
 		iter = newIterator(db, o, uuids)
-	} else if iter, err = db.Iterator(o); err != nil {
+	} else if iter, err = db.iterator(o); err != nil {
 		return &Search{db: db, err: err}
 	}
 
@@ -718,11 +718,8 @@ func (db *DB) Search(o Object, field, operator string, value interface{}) *Searc
 	return db.search(o, field, operator, value, nil)
 }
 
-// Iterator returns an Object Iterator
-func (db *DB) Iterator(of Object) (it *iterator, err error) {
-	db.RLock()
-	defer db.RUnlock()
-
+// iterator returns an Object Iterator, the caller must hold the lock
+func (db *DB) iterator(of Object) (it *iterator, err error) {
 	var s *Schema
 	var uuids []string
 
@@ -742,6 +739,14 @@ func (db *DB) Iterator(of Object) (it *iterator, err error) {
 
 	// building up the iterator
 	return newIterator(db, of, uuids), nil
+}
+
+// Iterator returns an Object Iterator
+func (db *DB) Iterator(of Object) (it *iterator, err error) {
+	db.RLock()
+	defer db.RUnlock()
+
+	return db.iterator(of)
 }
 
 // Count the number of Object in the database
